@@ -167,6 +167,64 @@ def e2e(kind, transport, value_name, setting, through_worker):
     return handles, viol, summary
 
 
+def pair(kind, transport, n_jobs):
+    """Several jobs with different arguments are in flight at the same time (and are run by one worker):
+    each one's consumer / actor gets its own arguments."""
+    x = Exec(kind, buckets="both" if transport != "inline" else "results")
+    w = x.world
+    viol = []
+    summary = {}
+    try:
+        vals = [{"v": [i, "x" * i]} for i in range(n_jobs)]
+
+        async def main():
+            await w.connect()
+            await w.broker.queue_declare("q")
+            sent = {}
+            for i, val in enumerate(vals):
+                kw = dict(queue="q", id_=f"job-{i}", args=val, _connection=w.conn)
+                if transport == "args_id":
+                    kw["args_id"] = f"explicit-{i}"
+                key, args, params = await Job("job", **kw).enqueue()
+                sent[key.id_] = args
+            c = w.broker.get_consumer("q", None, None, MessageCategory.NORMAL)
+            await c.start()
+            got = {}
+            keys = []
+            for _ in vals:
+                k2, payload, p2 = await asyncio.wait_for(c.consume(), 3.0)
+                got[k2.id_] = await _Processor(w.conn).get_payload(payload)
+                keys.append(k2)
+            for k2 in keys:
+                await w.broker.reject(k2)
+            await c.finish()
+            return sent, got
+
+        st, v = x.run(main(), max_iters=300_000)
+        if st != "ok":
+            viol.append(("e2e-failed", f"enqueue/consume of {n_jobs} jobs ended with {st}: {v!r}"))
+            return x.loop.handles, viol, summary
+        sent, got = v
+        if got != sent:
+            viol.append(("payload-mixed-up", f"jobs were enqueued with {sent}, their consumers (after bucket lookup) have {got}"))
+        ran = {}
+        worker = Worker(_connection=w.conn, graceful_shutdown_time=0.1, messages_limit=n_jobs, handle_signals=[])
+
+        async def actor(v, m: MessageDependency):
+            ran[m.key.id_] = v
+
+        worker.actor(actor, name="job", queue="q", converter=BasicConverter)
+        st, v2 = x.run(worker.run(), max_iters=300_000)
+        want = {f"job-{i}": val["v"] for i, val in enumerate(vals)}
+        if ran != want:
+            viol.append(("actor-args", f"actors received {ran}, expected {want} (status {st})"))
+        summary = dict(got=got, ran=ran)
+        handles = x.loop.handles
+    finally:
+        x.close()
+    return handles, viol, summary
+
+
 def codec_cases():
     tss = [datetime(2001, 9, 9, 1, 46, 40, us) for us in (0, 1, 999999)] + \
           [datetime(2001, 9, 9, 1, 46, 40, 5, tzinfo=timezone.utc),
@@ -281,6 +339,10 @@ def jobs(tier):
                 s2 = {k: (v.name if isinstance(v, PrioritiesT) else v.total_seconds() if isinstance(v, timedelta) else v)
                       for k, v in s.items()}
                 cases.append(dict(t="e2e", kind=kind, tr=tr, val="nested-dict", setting=s2, worker=False))
+    for kind in ("mem", "redis", "amqp"):
+        for tr in ("inline", "bucket", "args_id"):
+            for nj in (2, 3):
+                cases.append(dict(t="pair", kind=kind, tr=tr, n=nj))
     n = 40
     out = [dict(cases=cases[i:i + n]) for i in range(0, len(cases), n)]
     out.append(dict(cases=[dict(t="codecs")]))
@@ -309,6 +371,11 @@ def run_job(job):
         elif c["t"] == "names":
             viol = run_names(acc)
             summary = None
+        elif c["t"] == "pair":
+            handles, viol, summary = pair(c["kind"], c["tr"], c["n"])
+            acc.handles += handles
+            acc.executions += 1
+            acc.outcomes.add(digest([c, summary]))
         else:
             handles, viol, summary = e2e(c["kind"], c["tr"], c["val"], _setting_from_json(c["setting"]), c["worker"])
             acc.handles += handles
